@@ -89,30 +89,34 @@ def scanRrset (nameOf : NameOf) (z : Zone) (owner : Name) (nRrsets : Nat) (s : R
     else some w
   else some []
 
+/-- accumulate the issues of one more step; `none` (= `Err`, propagated by `?`) is absorbing -/
+def optAppend (acc b : Option (List Issue)) : Option (List Issue) :=
+  match acc, b with
+  | some a, some b => some (a ++ b)
+  | _, _ => none
+
 /-- `scan_node` -/
 def scanNode (nameOf : NameOf) (z : Zone) (owner : Name) (rrsets : List Rrset) : Option (List Issue) :=
-  rrsets.foldl (fun acc s =>
-    match acc, scanRrset nameOf z owner rrsets.length s with
-    | some a, some b => some (a ++ b)
-    | _, _ => none) (some [])
+  rrsets.foldl (fun acc s => optAppend acc (scanRrset nameOf z owner rrsets.length s)) (some [])
+
+/-- `validate`, check 2: exactly one SOA record at the apex -/
+def soaIssues (z : Zone) : List Issue :=
+  match soa z with
+  | some s => if s.rdatas.length ≠ 1 then [.TooManyApexSoas] else []
+  | none => [.MissingApexSoa]
+
+/-- `validate`, check 5 and the apex part of check 8 -/
+def apexNsIssues (nameOf : NameOf) (z : Zone) : Option (List Issue) :=
+  match ns z with
+  | some s =>
+    if classHasAddrs z.cls then forNames nameOf (checkApexNsAddress z) s.rdatas else some []
+  | none => some [.MissingApexNs]
 
 /-- `validate`: `none` = `Err(Error::InvalidRdata)` -/
 def validate (nameOf : NameOf) (z : Zone) : Option (List Issue) :=
-  let soaIssues : List Issue :=
-    match soa z with
-    | some s => if s.rdatas.length ≠ 1 then [.TooManyApexSoas] else []
-    | none => [.MissingApexSoa]
-  let nsIssues : Option (List Issue) :=
-    match ns z with
-    | some s =>
-      if classHasAddrs z.cls then forNames nameOf (checkApexNsAddress z) s.rdatas else some []
-    | none => some [.MissingApexNs]
-  match nsIssues with
+  match apexNsIssues nameOf z with
   | none => none
   | some nsI =>
-    (iterByNode z).foldl (fun acc p =>
-      match acc, scanNode nameOf z p.1 p.2 with
-      | some a, some b => some (a ++ b)
-      | _, _ => none) (some (soaIssues ++ nsI))
+    (iterByNode z).foldl (fun acc p => optAppend acc (scanNode nameOf z p.1 p.2)) (some (soaIssues z ++ nsI))
 
 end QV.Zone
